@@ -31,6 +31,9 @@ def keyLess : Key → Key → Bool
     let c := cmp x y
     if c != 0 then c == -1 else keyLess xs ys
 
+/-- group keys are the same group: pointwise `Compare == 0` -/
+def keq (a b : Key) : Bool := cmpList a b == 0
+
 /-- a `time.Time` as far as the engine can tell two of them apart: instant and location identity -/
 structure TimeV where
   ns : Int
